@@ -200,7 +200,7 @@ func BuildNode(w *World, id int, o Opts) (*Node, error) {
 			LastBlockTime: g.Timestamp, Validators: vs, NextValidators: vs.CopyIncrementProposerPriority(1),
 			LastHeightValidatorsChanged: 1, ConsensusParams: *configs.DefaultConsensusParams(), LastHeightConsensusParamsChanged: 1,
 		}
-		gs.AppHash = bc.Genesis().AppHash()
+		// (AppHash stays zero, as cstate.MakeGenesisState leaves it)
 		return gs
 	}
 	if fresh {
